@@ -7,6 +7,11 @@ BASE = ("cd /repo && /venv/bin/python -m pytest -ra -q -p no:cacheprovider --tim
         "--continue-on-collection-errors")
 
 CLAIMED = {
+    'C18': dict(
+        text="Indent.tla states the indentation rule (siblings' shared indentation, else parent indentation followed by indent_by; raw items keep theirs; comments take the owner line's; nothing existing changes) as a state machine over parents (entries, postings at 2/4/tab), existing meta layouts, indent_by strings and the operations value insertion, raw append, indent_by change, parent indent change, clear, comment setters; TLC enumerates every sequence up to the depth and each is replayed on real entries and postings comparing the created item's / comment's indentation, all existing lines, and the nesting after re-parse.",
+        note="Non-uniform existing indentation only requires 'one of the siblings''. Layouts the parser rejects are outside the input space.",
+        technique="TLA+ Indent rule (TLC) replayed on real entries and postings",
+        ref="§6 C18"),
     'C12': dict(
         text="TokenCodec.tla transcribes the string-like codecs (EscapedString escape/unescape, BlockComment format/parse/line splitting, InlineComment) over character classes; TLC checks the round-trip laws for every class string up to the bound and the token state machine [value, indent, raw] under every value / indent / raw_text assignment sequence; every string (3 concrete representatives per class incl. astral characters, FF/NEL/U+2028, CR LF / CR CR LF) is replayed on the real classes: value read-back, raw text lexed back by the real lexer as exactly one token of the type with the value, host document round trip, from_raw_text verbatim. Dates, plain-notation decimals and the simple token types are covered by shape lists checked against the lexer.",
         note="Small scope over character classes (strings <= 3-4 classes); one lossy case (inline comment value starting with a blank) is a recorded finding.",
